@@ -218,7 +218,7 @@ pub fn install_crash_handler(path: &str) {
     ] {
         unsafe {
             let mut sa: libc::sigaction = std::mem::zeroed();
-            sa.sa_sigaction = crash_handler as usize;
+            sa.sa_sigaction = crash_handler as *const () as usize;
             sa.sa_flags = libc::SA_NODEFER;
             libc::sigaction(sig, &sa, std::ptr::null_mut());
         }
